@@ -133,6 +133,21 @@ pub fn run(ctx: &Ctx) -> i32 {
     let col = Collector::new();
     let nproc = ctx.tier.pick(4u64, 8u64);
     let nseeds = ctx.tier.pick(16u64, 96u64);
+    sweep(&col, nproc, nseeds);
+    finish(
+        ctx,
+        &col,
+        Finish {
+            level: "exploration",
+            rule: "statement corpus (wildcards, joins with fan-out, multi-aggregate GROUP BY / HAVING with discriminating conditions, DISTINCT, COUNT(DISTINCT), string/array aggregation, tables whose names differ only in case) x 2 formats x 4 table-definition contexts x controlled hash seeds (fresh thread per replica, keys set through the LD_PRELOAD getrandom shim) x fresh processes; oracle: byte-identical printed output. Exhaustive over the bounded seed set, not over the 2^128 key space. Non-trivial: within the case at least two different canary iteration orders were observed and the output is non-empty.".into(),
+            exhaustive: true,
+            assumptions: vec!["std's RandomState takes its keys from libc getrandom (verified at run time through the magic call and the canary map)".into(), "now() excluded; TZ=UTC".into()],
+            bounds: json!({"processes": nproc, "seeds": nseeds}),
+        },
+    )
+}
+
+fn sweep(col: &Collector, nproc: u64, nseeds: u64) {
     let exe = std::env::current_exe().unwrap();
     let shim = format!("{}/target/seedshim.so", verif_dir());
     let shim_present = std::path::Path::new(&shim).exists();
@@ -200,21 +215,12 @@ pub fn run(ctx: &Ctx) -> i32 {
         col.machinery(format!("only {} canary orders observed: the seeds do not permute hash-map iteration orders", canaries.len()));
     }
     col.layer("seeds x processes", per_case.len() as u64, true, json!({"processes": nproc, "seeds_per_process": nseeds, "cases": per_case.len(), "canary_orders_seen": canaries.len()}));
-    finish(
-        ctx,
-        &col,
-        Finish {
-            level: "exploration",
-            rule: "statement corpus (wildcards, joins with fan-out, multi-aggregate GROUP BY / HAVING, DISTINCT, COUNT(DISTINCT), string/array aggregation) x 2 formats x 3 table-definition contexts x controlled hash seeds (fresh thread per replica, keys set through the LD_PRELOAD getrandom shim) x fresh processes; oracle: byte-identical printed output. Exhaustive over the bounded seed set, not over the 2^128 key space. Non-trivial: within the case at least two different canary iteration orders were observed and the output is non-empty.".into(),
-            exhaustive: true,
-            assumptions: vec!["std's RandomState takes its keys from libc getrandom (verified at run time through the magic call and the canary map)".into(), "now() excluded; TZ=UTC".into()],
-            bounds: json!({"processes": nproc, "seeds": nseeds}),
-        },
-    )
 }
 
 pub fn replay(case: &J) -> Vec<Failure> {
-    // re-run the whole (cheap) quick sweep and report the case again if it still differs
-    let _ = case;
-    vec![]
+    // the quick sweep is cheap: re-run it and report the failures that concern the same statement / format / context
+    let col = Collector::new();
+    sweep(&col, 4, 16);
+    let f = col.failures.lock().unwrap();
+    f.values().flat_map(|v| v.iter().cloned()).filter(|x| x.case["statement"] == case["statement"] && x.case["format"] == case["format"] && x.case["defs"] == case["defs"]).collect()
 }
